@@ -65,7 +65,11 @@ def _table(kind, n, seed):
         return vals * u.m
     if kind == "time":
         return Time("2020-01-01T00:00:00") + np.abs(vals) * 64 * u.s
-    return SkyCoord(np.abs(vals) * u.deg / 8, (vals / 16) * u.deg)
+    # components stored in degrees, hour angles, radians or arcminutes: the result must not depend on it
+    lon_u, lat_u = [(u.deg, u.deg), (u.hourangle, u.deg), (u.rad, u.rad), (u.arcmin, u.arcmin)][seed % 4]
+    lon = (np.abs(vals) / 8 * u.deg).to(lon_u)
+    lat = ((vals / 16) * u.deg).to(lat_u)
+    return SkyCoord(lon, lat)
 
 
 def _time_table(cube):
@@ -184,8 +188,13 @@ def run(case):
                     if name not in which:
                         continue
                     ax, kind = which[name]
-                    a = np.asarray(getattr(sv, name).value, dtype=float)
-                    b = np.asarray(getattr(rv, name).value, dtype=float)
+                    if kind == "sky":      # same physical angle whatever unit each side reports it in
+                        import astropy.units as u
+                        a = np.asarray(getattr(sv, name).to_value(u.deg), dtype=float)
+                        b = np.asarray(getattr(rv, name).to_value(u.deg), dtype=float)
+                    else:
+                        a = np.asarray(getattr(sv, name).value, dtype=float)
+                        b = np.asarray(getattr(rv, name).value, dtype=float)
                     if kind == "time":
                         # the values form is relative to a reference time that slicing keeps and interpolation
                         # resets: compare absolute times (seconds since a fixed epoch) taken from the tables
